@@ -26,8 +26,48 @@ def run(R, cfg, over=None):
         H.kernels_c07(R)
 
 
+def run_capacity(R, name):
+    """IR-type side condition of the bounded claim: the inductive step is decided on boards of at most ~16 cells, where every counter
+    fits any integer dtype.  At the DEFAULT configuration the state leaves that count cells / steps must have a dtype that can hold the
+    largest value the rules give them (Snake: `body_state` numbers the body 1..length <= rows*cols; a seeded int8 `body_state` wraps at
+    length 128 on the 12x12 default board).  Decided on the avals of the real reset/step jaxprs (no solver query, kind "structural")."""
+    import jax
+    import numpy as np
+    from envs import configs
+    try:
+        env = configs.make_default(name)
+    except Exception as e:  # noqa  (Sokoban needs its dataset)
+        R.note(f"{name}: default configuration cannot be built offline ({type(e).__name__}); capacity side condition skipped")
+        return
+    st, _ = jax.eval_shape(env.reset, jax.random.PRNGKey(0))
+    act = env.action_spec.generate_value()
+    ns, _ = jax.eval_shape(env.step, st, act)
+    cls = base.cls_of(name)
+    need = dict(cls.capacity(env)) if hasattr(cls, "capacity") else {}
+    T = getattr(env, "time_limit", None)
+    R.bound(config=name + "@default", what="dtype capacity of counting state leaves", required=need, time_limit=T)
+    for which, tree in (("reset", st), ("step", ns)):
+        for path, leaf in jax.tree_util.tree_leaves_with_path(tree):
+            pth = jax.tree_util.keystr(path)
+            dt = np.dtype(leaf.dtype) if not jax.dtypes.issubdtype(leaf.dtype, jax.dtypes.prng_key) else None
+            if dt is None or dt.kind not in "iu":
+                continue
+            req = need.get(pth)
+            if req is None and pth.endswith("step_count") and T is not None:
+                req = int(T)
+            if req is None:
+                continue
+            ok = np.iinfo(dt).max >= int(req)
+            R.structural(f"capacity: {which}{pth} dtype {dt} holds the largest rule value {int(req)}", ok,
+                         {"config": name + "@default", "leaf": pth, "dtype": str(dt), "dtype_max": int(np.iinfo(dt).max), "required": int(req)})
+
+
 def jobs(tier, seed):
     js = []
+    for name in ENVS:
+        if name == "Sokoban":      # the default Sokoban needs its dataset (network): its levels are 10x10 with int32/uint8 grids
+            continue
+        js.append((f"capacity/{name}@default", "checks.C07", "run_capacity", {"name": name}))
     for name in base.available():
         if name not in ENVS:
             continue
